@@ -76,8 +76,8 @@ func jailReceive(raw json.RawMessage) (any, error) {
 		stats[i] = a.Stats[i].stat()
 	}
 	pair := h.NewPair(context.Background(), a.Capacity)
-	opt := fsutil.ReceiveOpt{Merge: a.Mode == "merge"}
-	if a.Mode == "metaonly" {
+	opt := fsutil.ReceiveOpt{Merge: strings.Contains(a.Mode, "merge")}
+	if strings.Contains(a.Mode, "metaonly") {
 		opt.MetadataOnly = func(p string, st *types.Stat) bool { return len(p)%2 == 0 || strings.Contains(p, "a") }
 	}
 	var recvErr error
@@ -165,7 +165,7 @@ func genC03(t *rapid.T) *c03Case {
 		d.Normalize()
 		c.Dst = d
 	}
-	c.Mode = rapid.SampledFrom([]string{"normal", "normal", "merge", "metaonly"}).Draw(t, "mode")
+	c.Mode = rapid.SampledFrom([]string{"normal", "normal", "merge", "metaonly", "merge+metaonly"}).Draw(t, "mode")
 	c.Capacity = rapid.SampledFrom([]int{0, 8, 64}).Draw(t, "cap")
 	c.Script.Chunk = []int{rapid.SampledFrom([]int{7, 4096, 32768}).Draw(t, "chunk")}
 	c.Script.Choices = rapid.SliceOfN(rapid.IntRange(0, 5), 1, 6).Draw(t, "choices")
@@ -283,7 +283,7 @@ func c03Classify(c *c03Case) (firstBad int, unspecified bool) {
 			k = h.SpecDir
 		}
 		p := string(s.Path)
-		if c.Mode == "metaonly" && p == listingName {
+		if strings.Contains(c.Mode, "metaonly") && p == listingName {
 			continue // never looked at by a metadata-only receiver
 		}
 		seq = append(seq, h.SpecElem{Path: p, Kind: k})
@@ -438,7 +438,7 @@ func c03Check(env *h.Env, c *c03Case) error {
 	}
 	// (3) a legal stream succeeds
 	if !hostile && firstBad < 0 && !res.Stuck {
-		if res.RecvErr != "" && c.Mode != "merge" {
+		if res.RecvErr != "" && !strings.Contains(c.Mode, "merge") {
 			return fmt.Errorf("%s: legal stream but Receive failed: %s", what, res.RecvErr)
 		}
 	}
